@@ -307,7 +307,8 @@ FlushedDurable == [][FlushAll(FALSE) => files' = astore']_vars
 BatchRefines == \A b \in Batches : /\ CodeRejects(EffIdx, b) => ~Abs!MustAccept(astore, b)
                                    /\ ~CodeRejects(EffIdx, b) => ~Abs!MustReject(astore, b)
 \* C06: a refused call changes nothing observable
-RefusedNoop == [][res' \in {"invalid", "unique"} => (astore' = astore /\ files' = files /\ midx' = midx /\ pending' = pending)]_vars
+RefusedNoop == [][(hist' # hist /\ hist'[Len(hist')].op \in {"put", "many"} /\ res' \in {"invalid", "unique"})
+                     => (astore' = astore /\ files' = files /\ midx' = midx /\ pending' = pending /\ didx' = didx)]_vars
 \* C11 premise: in sync mode Control has nothing to report
 ControlOK == (loaded /\ pending = Empty) => DOMAIN midx = DOMAIN files
 \* C10 liveness: pending writes reach the disk with no further call
